@@ -460,6 +460,27 @@ def _tee_replay_cell(shape, advance):
     return cell
 
 
+def _tee_clone_cell(shape, fresh):
+    """Traverse a clone made with tee() from a tee branch that has already been run to its end (fresh=False), or from
+    one that has not been advanced at all (fresh=True): nothing (more) is yielded, a checkpoint is still due."""
+    async def cell(pre, tg):
+        a, b = ait.tee(_src(shape), 2)
+        if not fresh:
+            async for _ in a:
+                pass
+        (c,) = ait.tee(a, 1)
+        info = {"n": 0}
+
+        async def call():
+            async for _ in c:
+                info["n"] += 1
+
+        call.demand = lambda: (shape not in ASYNC_SHAPES) or info["n"] == 0
+        return call, (lambda: None), (lambda d: None), None
+
+    return cell
+
+
 def _reduce_cell(kind):
     async def cell(pre, tg):
         got = []
@@ -524,6 +545,9 @@ for _name, _mk in IT.items():
 for _shape in SHAPES:
     for _adv in ("all", "one"):
         CELLS[f"it_tee_replay_{_adv}:{_shape}"] = _tee_replay_cell(_shape, _adv)
+for _shape in SHAPES:
+    CELLS[f"it_tee_clone_exhausted:{_shape}"] = _tee_clone_cell(_shape, False)
+    CELLS[f"it_tee_clone_fresh:{_shape}"] = _tee_clone_cell(_shape, True)
 for _name, _mk in IT_NOSRC.items():
     CELLS[f"it_{_name}"] = _it_cell(_mk, _name in INFINITE)
 
@@ -546,7 +570,30 @@ def _real_run(config, main):
         factory = asyncio.SelectorEventLoop
 
     async def m():
-        return await main(asyncio.get_running_loop())
+        # real loop (worker threads): a busy-spinning operation is cut off by an iteration budget, not by the clock
+        loop = asyncio.get_running_loop()
+        task = asyncio.current_task()
+        state = {"n": 0, "stop": False}
+
+        def tick():
+            state["n"] += 1
+            if state["stop"]:
+                return
+            if state["n"] > 300000:
+                state["spun"] = True
+                task.cancel()
+                return
+            loop.call_soon(tick)
+
+        loop.call_soon(tick)
+        try:
+            return await main(loop)
+        except asyncio.CancelledError:
+            if state.get("spun"):
+                raise BudgetExceeded("more than 300000 loop iterations") from None
+            raise
+        finally:
+            state["stop"] = True
 
     return anyio.run(m, backend_options={"loop_factory": factory})
 
@@ -620,6 +667,13 @@ def run_case(case) -> Outcome:
                             outer.cancel()
                         elif how == "before-entry":
                             pass
+                        elif how == "during-shielded-checkpoint":
+                            # the enclosing scope is cancelled from a loop callback while this task sits in the
+                            # shielded checkpoint of an earlier, uncontended operation of the kind that ends with one
+                            loop.call_soon(outer.cancel)
+                            prior = anyio.Lock() if pre.get("prior", 0) == 0 else anyio.Semaphore(1)
+                            await prior.acquire()
+                            prior.release()
                         # k cancellations already delivered and caught by the caller
                         for _ in range(pre.get("delivered", 0)):
                             try:
@@ -679,6 +733,7 @@ def enumerate_cases(tier):
                 yield {"cell": name, "cancelled": cancelled, "config": config, "pre": {}}
                 if cancelled:
                     yield {"cell": name, "cancelled": True, "config": config, "pre": {"how": "above-group"}}
+                    yield {"cell": name, "cancelled": True, "config": config, "pre": {"how": "during-shielded-checkpoint"}}
 
 
 NAMES = sorted(ALL_CELLS)
@@ -692,7 +747,8 @@ def _gen(g):
            "waiters": g.int(0, 3), "after": g.int(0, 2), "size": g.choice([1, 2, 3, math.inf]), "fill": g.int(0, 3),
            "work": g.int(0, 2), "take": g.int(1, 4), "abandon": g.bool()}
     if cancelled:
-        pre["how"] = g.choice(["own", "parent", "deadline", "above-group"])
+        pre["how"] = g.choice(["own", "parent", "deadline", "above-group", "during-shielded-checkpoint"])
+        pre["prior"] = g.int(0, 1)
         pre["delivered"] = g.int(0, 3)
     return {"cell": name, "cancelled": cancelled, "config": g.choice(["S", "E", "U"]), "pre": pre}
 
